@@ -1,0 +1,430 @@
+//go:build verif
+
+package jet
+
+// Contracts for parse.go and constructors.go (C02 parser half, C04 ladder, C05, C08, C12, C13, C14), checked by /verif/jetvc.
+// Comments only; compiled only under the build tag "verif".
+
+// NTF(n): what n.Type() returns: the NodeType field of the concrete node (all implementations are promoted from NodeBase)
+//@ pred NTF(n Node) := ite(istype(n, "*ListNode"), as(n, "*ListNode").NodeType, ite(istype(n, "*TextNode"), as(n, "*TextNode").NodeType, ite(istype(n, "*PipeNode"), as(n, "*PipeNode").NodeType, ite(istype(n, "*ActionNode"), as(n, "*ActionNode").NodeType, ite(istype(n, "*CommandNode"), as(n, "*CommandNode").NodeType, ite(istype(n, "*IdentifierNode"), as(n, "*IdentifierNode").NodeType, ite(istype(n, "*UnderscoreNode"), as(n, "*UnderscoreNode").NodeType, ite(istype(n, "*NilNode"), as(n, "*NilNode").NodeType, ite(istype(n, "*FieldNode"), as(n, "*FieldNode").NodeType, ite(istype(n, "*ChainNode"), as(n, "*ChainNode").NodeType, ite(istype(n, "*BoolNode"), as(n, "*BoolNode").NodeType, ite(istype(n, "*NumberNode"), as(n, "*NumberNode").NodeType, ite(istype(n, "*StringNode"), as(n, "*StringNode").NodeType, ite(istype(n, "*endNode"), as(n, "*endNode").NodeType, ite(istype(n, "*contentNode"), as(n, "*contentNode").NodeType, ite(istype(n, "*elseNode"), as(n, "*elseNode").NodeType, ite(istype(n, "*SetNode"), as(n, "*SetNode").NodeType, ite(istype(n, "*IfNode"), as(n, "*IfNode").NodeType, ite(istype(n, "*RangeNode"), as(n, "*RangeNode").NodeType, ite(istype(n, "*BlockNode"), as(n, "*BlockNode").NodeType, ite(istype(n, "*YieldNode"), as(n, "*YieldNode").NodeType, ite(istype(n, "*IncludeNode"), as(n, "*IncludeNode").NodeType, ite(istype(n, "*AdditiveExprNode"), as(n, "*AdditiveExprNode").NodeType, ite(istype(n, "*MultiplicativeExprNode"), as(n, "*MultiplicativeExprNode").NodeType, ite(istype(n, "*LogicalExprNode"), as(n, "*LogicalExprNode").NodeType, ite(istype(n, "*ComparativeExprNode"), as(n, "*ComparativeExprNode").NodeType, ite(istype(n, "*NumericComparativeExprNode"), as(n, "*NumericComparativeExprNode").NodeType, ite(istype(n, "*NotExprNode"), as(n, "*NotExprNode").NodeType, ite(istype(n, "*CallExprNode"), as(n, "*CallExprNode").NodeType, ite(istype(n, "*TernaryExprNode"), as(n, "*TernaryExprNode").NodeType, ite(istype(n, "*IndexExprNode"), as(n, "*IndexExprNode").NodeType, ite(istype(n, "*SliceExprNode"), as(n, "*SliceExprNode").NodeType, ite(istype(n, "*ReturnNode"), as(n, "*ReturnNode").NodeType, ite(istype(n, "*TryNode"), as(n, "*TryNode").NodeType, ite(istype(n, "*catchNode"), as(n, "*catchNode").NodeType, NodeTypeOf(n))))))))))))))))))))))))))))))))))))
+// WFTag(n): n is nil, or a non-nil pointer to one of the node structs whose NodeType field carries that struct's own tag
+//@ pred WFTag(n Node) := n == nil || (refof(n) != nil && ((istype(n, "*ListNode") && as(n, "*ListNode").NodeType == NodeList) || (istype(n, "*TextNode") && as(n, "*TextNode").NodeType == NodeText) || (istype(n, "*PipeNode") && as(n, "*PipeNode").NodeType == NodePipe) || (istype(n, "*ActionNode") && as(n, "*ActionNode").NodeType == NodeAction) || (istype(n, "*CommandNode") && as(n, "*CommandNode").NodeType == NodeCommand) || (istype(n, "*IdentifierNode") && as(n, "*IdentifierNode").NodeType == NodeIdentifier) || (istype(n, "*UnderscoreNode") && as(n, "*UnderscoreNode").NodeType == NodeUnderscore) || (istype(n, "*NilNode") && as(n, "*NilNode").NodeType == NodeNil) || (istype(n, "*FieldNode") && as(n, "*FieldNode").NodeType == NodeField) || (istype(n, "*ChainNode") && as(n, "*ChainNode").NodeType == NodeChain) || (istype(n, "*BoolNode") && as(n, "*BoolNode").NodeType == NodeBool) || (istype(n, "*NumberNode") && as(n, "*NumberNode").NodeType == NodeNumber) || (istype(n, "*StringNode") && as(n, "*StringNode").NodeType == NodeString) || (istype(n, "*endNode") && as(n, "*endNode").NodeType == nodeEnd) || (istype(n, "*contentNode") && as(n, "*contentNode").NodeType == nodeContent) || (istype(n, "*elseNode") && as(n, "*elseNode").NodeType == nodeElse) || (istype(n, "*SetNode") && as(n, "*SetNode").NodeType == NodeSet) || (istype(n, "*IfNode") && as(n, "*IfNode").NodeType == NodeIf) || (istype(n, "*RangeNode") && as(n, "*RangeNode").NodeType == NodeRange) || (istype(n, "*BlockNode") && as(n, "*BlockNode").NodeType == NodeBlock) || (istype(n, "*YieldNode") && as(n, "*YieldNode").NodeType == NodeYield) || (istype(n, "*IncludeNode") && as(n, "*IncludeNode").NodeType == NodeInclude) || (istype(n, "*AdditiveExprNode") && as(n, "*AdditiveExprNode").NodeType == NodeAdditiveExpr) || (istype(n, "*MultiplicativeExprNode") && as(n, "*MultiplicativeExprNode").NodeType == NodeMultiplicativeExpr) || (istype(n, "*LogicalExprNode") && as(n, "*LogicalExprNode").NodeType == NodeLogicalExpr) || (istype(n, "*ComparativeExprNode") && as(n, "*ComparativeExprNode").NodeType == NodeComparativeExpr) || (istype(n, "*NumericComparativeExprNode") && as(n, "*NumericComparativeExprNode").NodeType == NodeNumericComparativeExpr) || (istype(n, "*NotExprNode") && as(n, "*NotExprNode").NodeType == NodeNotExpr) || (istype(n, "*CallExprNode") && as(n, "*CallExprNode").NodeType == NodeCallExpr) || (istype(n, "*TernaryExprNode") && as(n, "*TernaryExprNode").NodeType == NodeTernaryExpr) || (istype(n, "*IndexExprNode") && as(n, "*IndexExprNode").NodeType == NodeIndexExpr) || (istype(n, "*SliceExprNode") && as(n, "*SliceExprNode").NodeType == NodeSliceExpr) || (istype(n, "*ReturnNode") && as(n, "*ReturnNode").NodeType == NodeReturn) || (istype(n, "*TryNode") && as(n, "*TryNode").NodeType == NodeTry) || (istype(n, "*catchNode") && as(n, "*catchNode").NodeType == nodeCatch)))
+
+// ---- parser state ---------------------------------------------------------------------------------
+//@ modset Parse := t.token, t.peekCount, t.lex.lastPos, map t.passedBlocks, ghost CM, ghost NL
+
+//@ pred TokOK(it item) := it.typ == itemField ==> len(it.val) >= 2 && it.val[0] == '.'
+//@ pred PInv(t *Template) := t != nil && t.lex != nil && forall(k, 0, 3, TokOK(t.token[k])) && 0 <= t.peekCount && t.peekCount <= 3 && 0 <= t.lex.lastPos && t.lex.lastPos <= len(t.lex.input) && t.set != nil && SetOK(t.set) && Canon(t.Name) && t.passedBlocks != nil
+
+//@ func (*lexer).nextItem
+//@   props C02
+//@   trusted channel receive: the items on the channel are those sent by the lexer goroutine, whose emit/errorf contracts give 0 <= pos <= len(input)
+//@   requires l != nil
+//@   modifies l.lastPos
+//@   nopanic
+//@   ensures l.lastPos == result.pos && 0 <= result.pos && result.pos <= len(l.input) && TokOK(result)
+
+//@ func (*lexer).drain
+//@   props C02
+//@   trusted channel receive loop; terminates because the lexer goroutine closes the channel (run$1)
+//@   nopanic
+
+//@ func (*Template).next
+//@   props C02
+//@   requires PInv(t)
+//@   modifies t.token, t.peekCount, t.lex.lastPos
+//@   nopanic
+//@   ensures [lookahead-index-in-range] PInv(t) && t.peekCount <= 2 && t.peekCount == ite(old(t.peekCount) > 0, old(t.peekCount) - 1, 0) && result == t.token[t.peekCount] && TokOK(result) && (old(t.peekCount) > 0 ==> t.token == old(t.token))
+
+//@ func (*Template).backup
+//@   props C02
+//@   requires PInv(t) && t.peekCount <= 2
+//@   modifies t.peekCount
+//@   nopanic
+//@   ensures PInv(t) && t.peekCount == old(t.peekCount) + 1
+
+//@ func (*Template).backup2
+//@   props C02
+//@   requires PInv(t) && TokOK(t1)
+//@   modifies t.token, t.peekCount
+//@   nopanic
+//@   ensures PInv(t) && t.peekCount == 2
+
+//@ func (*Template).backup3
+//@   props C02
+//@   requires PInv(t) && TokOK(t1) && TokOK(t2)
+//@   modifies t.token, t.peekCount
+//@   nopanic
+//@   ensures PInv(t) && t.peekCount == 3
+
+//@ func (*Template).peek
+//@   props C02
+//@   requires PInv(t)
+//@   modifies t.token, t.peekCount, t.lex.lastPos
+//@   nopanic
+//@   ensures PInv(t) && t.peekCount >= 1 && t.peekCount == ite(old(t.peekCount) > 0, old(t.peekCount), 1) && result == t.token[t.peekCount - 1] && (old(t.peekCount) > 0 ==> t.token == old(t.token))
+
+//@ func (*Template).nextNonSpace
+//@   props C02
+//@   requires PInv(t)
+//@   modifies t.token, t.peekCount, t.lex.lastPos
+//@   nopanic
+//@   loop 0 invariant PInv(t)
+//@   ensures PInv(t) && t.peekCount <= 2 && token.typ != itemSpace && token == t.token[t.peekCount] && TokOK(token)
+
+//@ func (*Template).peekNonSpace
+//@   props C02
+//@   requires PInv(t)
+//@   modifies t.token, t.peekCount, t.lex.lastPos
+//@   nopanic
+//@   loop 0 invariant PInv(t)
+//@   ensures PInv(t) && t.peekCount >= 1 && token.typ != itemSpace && token == t.token[t.peekCount - 1]
+
+//@ func (*Template).errorf
+//@   props C02 C12
+//@   requires t != nil && t.lex != nil && 0 <= t.lex.lastPos && t.lex.lastPos <= len(t.lex.input)
+//@   modifies t.Root
+//@   noreturn
+//@   callsite (*lexer).lineNumber count 1
+
+//@ func (*Template).error
+//@   props C02
+//@   requires t != nil && t.lex != nil && 0 <= t.lex.lastPos && t.lex.lastPos <= len(t.lex.input)
+//@   modifies t.Root
+//@   noreturn
+
+//@ func (*Template).unexpected
+//@   props C02
+//@   requires t != nil && t.lex != nil && 0 <= t.lex.lastPos && t.lex.lastPos <= len(t.lex.input)
+//@   modifies t.Root
+//@   noreturn
+
+//@ func (*Template).expect
+//@   props C02
+//@   requires PInv(t)
+//@   modifies @Parse
+//@   ensures PInv(t) && t.peekCount <= 2 && result.typ == expectedType
+
+//@ func (*Template).expectRightDelim
+//@   props C02
+//@   requires PInv(t)
+//@   modifies @Parse
+//@   ensures PInv(t) && t.peekCount <= 2 && result.typ == itemRightDelim
+
+//@ func (*Template).expectOneOf
+//@   props C02
+//@   requires PInv(t)
+//@   modifies @Parse
+//@   ensures PInv(t) && t.peekCount <= 2 && (result.typ == expected1 || result.typ == expected2)
+
+//@ func (*Template).expectString
+//@   props C02
+//@   requires PInv(t)
+//@   modifies @Parse
+//@   ensures PInv(t) && t.peekCount <= 2
+
+//@ func unquote
+//@   inline
+
+// ---- expressions: the precedence ladder (C04) ---------------------------------------------------------
+// Each level obtains its operands only from the next tighter level, loops exactly while the lookahead token is one
+// of its own operators, and nests to the left.
+
+//@ func (*Template).logicalExpression
+//@   props C02 C04
+//@   requires PInv(t)
+//@   modifies @Parse
+//@   loop 0 invariant PInv(t) && t.peekCount <= 2 && left != nil && WFTag(left)
+//@   ensures PInv(t) && t.peekCount <= 2 && result0 != nil && WFTag(result0)
+//@   ensures [maximal-munch] {C04} result1.typ != itemAnd && result1.typ != itemOr
+//@   callsite (*Template).newLogicalExpr 0 requires [operator-of-this-level-left-associative] {C04} (item.typ == itemAnd || item.typ == itemOr) && left == caller.left && right == lastret("(*Template).comparativeExpression", 0) && item == caller.endtoken
+//@   callsite (*Template).logicalExpression count 0
+//@   callsite (*Template).comparativeExpression count 2
+//@   callsite (*Template).numericComparativeExpression count 0
+//@   callsite (*Template).additiveExpression count 0
+//@   callsite (*Template).multiplicativeExpression count 0
+//@   callsite (*Template).unaryExpression count 0
+//@   callsite (*Template).parseExpression count 0
+//@   callsite (*Template).operand count 0
+//@   callsite (*Template).term count 0
+
+//@ func (*Template).comparativeExpression
+//@   props C02 C04
+//@   requires PInv(t)
+//@   modifies @Parse
+//@   loop 0 invariant PInv(t) && t.peekCount <= 2 && left != nil && WFTag(left)
+//@   ensures PInv(t) && t.peekCount <= 2 && result0 != nil && WFTag(result0)
+//@   ensures [maximal-munch] {C04} result1.typ != itemEquals && result1.typ != itemNotEquals
+//@   callsite (*Template).newComparativeExpr 0 requires [operator-of-this-level-left-associative] {C04} (item.typ == itemEquals || item.typ == itemNotEquals) && left == caller.left && right == lastret("(*Template).numericComparativeExpression", 0) && item == caller.endtoken
+//@   callsite (*Template).logicalExpression count 0
+//@   callsite (*Template).comparativeExpression count 0
+//@   callsite (*Template).numericComparativeExpression count 2
+//@   callsite (*Template).additiveExpression count 0
+//@   callsite (*Template).multiplicativeExpression count 0
+//@   callsite (*Template).unaryExpression count 0
+//@   callsite (*Template).parseExpression count 0
+//@   callsite (*Template).operand count 0
+//@   callsite (*Template).term count 0
+
+//@ func (*Template).numericComparativeExpression
+//@   props C02 C04
+//@   requires PInv(t)
+//@   modifies @Parse
+//@   loop 0 invariant PInv(t) && t.peekCount <= 2 && left != nil && WFTag(left)
+//@   ensures PInv(t) && t.peekCount <= 2 && result0 != nil && WFTag(result0)
+//@   ensures [maximal-munch] {C04} result1.typ != itemGreat && result1.typ != itemGreatEquals && result1.typ != itemLess && result1.typ != itemLessEquals
+//@   callsite (*Template).newNumericComparativeExpr 0 requires [operator-of-this-level-left-associative] {C04} (item.typ == itemGreat || item.typ == itemGreatEquals || item.typ == itemLess || item.typ == itemLessEquals) && left == caller.left && right == lastret("(*Template).additiveExpression", 0) && item == caller.endtoken
+//@   callsite (*Template).logicalExpression count 0
+//@   callsite (*Template).comparativeExpression count 0
+//@   callsite (*Template).numericComparativeExpression count 0
+//@   callsite (*Template).additiveExpression count 2
+//@   callsite (*Template).multiplicativeExpression count 0
+//@   callsite (*Template).unaryExpression count 0
+//@   callsite (*Template).parseExpression count 0
+//@   callsite (*Template).operand count 0
+//@   callsite (*Template).term count 0
+
+//@ func (*Template).additiveExpression
+//@   props C02 C04
+//@   requires PInv(t)
+//@   modifies @Parse
+//@   loop 0 invariant PInv(t) && t.peekCount <= 2 && left != nil && WFTag(left)
+//@   ensures PInv(t) && t.peekCount <= 2 && result0 != nil && WFTag(result0)
+//@   ensures [maximal-munch] {C04} result1.typ != itemAdd && result1.typ != itemMinus
+//@   callsite (*Template).newAdditiveExpr 0 requires [operator-of-this-level-left-associative] {C04} (item.typ == itemAdd || item.typ == itemMinus) && left == caller.left && right == lastret("(*Template).multiplicativeExpression", 0) && item == caller.endtoken
+//@   callsite (*Template).logicalExpression count 0
+//@   callsite (*Template).comparativeExpression count 0
+//@   callsite (*Template).numericComparativeExpression count 0
+//@   callsite (*Template).additiveExpression count 0
+//@   callsite (*Template).multiplicativeExpression count 2
+//@   callsite (*Template).unaryExpression count 0
+//@   callsite (*Template).parseExpression count 0
+//@   callsite (*Template).operand count 0
+//@   callsite (*Template).term count 0
+
+//@ func (*Template).multiplicativeExpression
+//@   props C02 C04
+//@   requires PInv(t)
+//@   modifies @Parse
+//@   loop 0 invariant PInv(t) && t.peekCount <= 2 && left != nil && WFTag(left)
+//@   ensures PInv(t) && t.peekCount <= 2 && result0 != nil && WFTag(result0)
+//@   ensures [maximal-munch] {C04} result1.typ != itemMul && result1.typ != itemDiv && result1.typ != itemMod
+//@   callsite (*Template).newMultiplicativeExpr 0 requires [operator-of-this-level-left-associative] {C04} (item.typ == itemMul || item.typ == itemDiv || item.typ == itemMod) && left == caller.left && right == lastret("(*Template).unaryExpression", 0) && item == caller.endtoken
+//@   callsite (*Template).logicalExpression count 0
+//@   callsite (*Template).comparativeExpression count 0
+//@   callsite (*Template).numericComparativeExpression count 0
+//@   callsite (*Template).additiveExpression count 0
+//@   callsite (*Template).multiplicativeExpression count 0
+//@   callsite (*Template).unaryExpression count 2
+//@   callsite (*Template).parseExpression count 0
+//@   callsite (*Template).operand count 0
+//@   callsite (*Template).term count 0
+
+//@ func (*Template).unaryExpression
+//@   props C02 C04
+//@   requires PInv(t)
+//@   modifies @Parse
+//@   ensures PInv(t) && t.peekCount <= 2 && result0 != nil && WFTag(result0)
+//@   callsite (*Template).newAdditiveExpr 0 requires [unary-sign-binds-tightest] {C04} left == nil && right == lastret("(*Template).operand", 0) && (item.typ == itemMinus || item.typ == itemAdd)
+//@   callsite (*Template).newNotExpr 0 requires [not-applies-to-a-comparison] {C04} expr == lastret("(*Template).comparativeExpression", 0)
+//@   callsite (*Template).operand count 2
+//@   callsite (*Template).comparativeExpression count 1
+//@   callsite (*Template).parseExpression count 0
+//@   callsite (*Template).logicalExpression count 0
+//@   callsite (*Template).additiveExpression count 0
+//@   callsite (*Template).multiplicativeExpression count 0
+
+//@ func (*Template).parseExpression
+//@   props C02 C04
+//@   requires PInv(t)
+//@   modifies @Parse
+//@   ensures PInv(t) && t.peekCount <= 2 && result0 != nil && WFTag(result0)
+//@   callsite (*Template).newTernaryExpr 0 requires [ternary-nests-to-the-right] {C04} boolean == lastret("(*Template).logicalExpression", 0) && right == lastret("(*Template).parseExpression", 0) && left != nil
+//@   callsite (*Template).logicalExpression count 1
+//@   callsite (*Template).parseExpression count 2
+//@   check [ternary-only-after-question-mark] {C04} ncalls("(*Template).parseExpression") == 0 || ncalls("(*Template).parseExpression") == 2
+
+//@ func (*Template).expression
+//@   props C02
+//@   requires PInv(t)
+//@   modifies @Parse
+//@   ensures PInv(t) && result != nil && WFTag(result)
+
+//@ func (*Template).newNumber
+//@   props C02 C04
+//@   nocrash
+//@   requires t != nil
+//@   loop 0 invariant true
+//@   ensures result1 == nil ==> result0 != nil && fresh(result0) && result0.NodeType == NodeNumber
+//@   ensures [every-accepted-numeric-literal-is-a-float] {C04} result1 == nil && typ == itemNumber ==> result0.IsFloat || result0.IsComplex
+
+//@ func (*NumberNode).simplifyComplex
+//@   props C02
+//@   nocrash
+//@   requires n != nil
+//@   modifies n.IsFloat, n.Float64, n.IsInt, n.Int64, n.IsUint, n.Uint64
+//@   nopanic
+
+//@ func (*Template).term
+//@   props C02
+//@   requires PInv(t)
+//@   modifies @Parse
+//@   ensures PInv(t) && WFTag(result)
+
+//@ func (*ChainNode).Add
+//@   props C02
+//@   requires c != nil && len(field) >= 2 && field[0] == '.'
+//@   modifies c.Field
+//@ func (*ChainNode).String
+//@   trusted String methods of nodes only read the tree; a chain with at least one field prints as a non-empty string
+//@   nopanic
+//@   ensures len(result) >= 1
+
+//@ func (*Template).operand
+//@   props C02 C06 C14
+//@   requires PInv(t)
+//@   modifies @Parse
+//@   loop 0 invariant PInv(t) && node != nil && WFTag(node)
+//@   loop 1 invariant PInv(t) && node != nil && WFTag(node)
+//@   ensures PInv(t) && result != nil && WFTag(result)
+
+//@ func (*Template).parseArguments
+//@   props C02 C14
+//@   requires PInv(t)
+//@   modifies @Parse
+//@   loop 0 invariant PInv(t) && forall(i, 0, len(args.Exprs), args.Exprs[i] != nil)
+//@   ensures PInv(t) && forall(i, 0, len(args.Exprs), args.Exprs[i] != nil)
+
+//@ func (*Template).assignmentOrExpression
+//@   props C02 C17
+//@   requires PInv(t)
+//@   modifies @Parse
+//@   loop 0 invariant PInv(t) && operand != nil && WFTag(operand) && forall(i, 0, len(left), left[i] != nil)
+//@   loop 1 invariant PInv(t) && -1 <= rangeindex && forall(i, 0, len(left), left[i] != nil)
+//@   loop 2 invariant PInv(t)
+//@   ensures PInv(t) && operand != nil && WFTag(operand)
+
+//@ func (*Template).command
+//@   props C02 C14
+//@   requires PInv(t) && WFTag(baseExpr)
+//@   modifies @Parse
+//@   ensures PInv(t) && result != nil
+
+//@ func (*Template).pipeline
+//@   props C02 C14
+//@   requires PInv(t) && WFTag(baseExprMutate)
+//@   modifies @Parse
+//@   loop 0 invariant PInv(t) && pipe != nil
+//@   ensures PInv(t) && pipe != nil
+
+//@ func (*Template).blockParametersList
+//@   props C02 C08
+//@   requires PInv(t)
+//@   modifies @Parse
+//@   loop 0 invariant PInv(t) && block != nil
+//@   ensures PInv(t) && result != nil
+
+// ---- statements ------------------------------------------------------------------------------------------------
+
+//@ func (*Template).action
+//@   props C02
+//@   requires PInv(t)
+//@   modifies @Parse
+//@   ensures PInv(t) && n != nil && WFTag(n)
+
+//@ func (*Template).textOrAction
+//@   props C02 C03
+//@   requires PInv(t)
+//@   modifies @Parse
+//@   ensures PInv(t) && result != nil && WFTag(result)
+
+//@ func (*Template).itemList
+//@   props C02
+//@   requires PInv(t)
+//@   modifies @Parse
+//@   loop 0 invariant PInv(t) && list != nil
+//@   loop 1 invariant PInv(t) && list != nil && n != nil && WFTag(n) && -1 <= rangeindex
+//@   ensures PInv(t) && list != nil && next != nil && WFTag(next)
+
+//@ func (*Template).parseControl
+//@   props C02 C05
+//@   requires PInv(t)
+//@   modifies @Parse
+//@   ensures PInv(t) && list != nil
+
+//@ func (*Template).ifControl
+//@   props C02 C05
+//@   requires PInv(t)
+//@   modifies @Parse
+//@   ensures PInv(t) && result != nil && WFTag(result)
+//@ func (*Template).rangeControl
+//@   props C02 C05
+//@   requires PInv(t)
+//@   modifies @Parse
+//@   ensures PInv(t) && result != nil && WFTag(result)
+//@ func (*Template).endControl
+//@   props C02
+//@   requires PInv(t)
+//@   modifies @Parse
+//@   ensures PInv(t) && result != nil && WFTag(result)
+//@ func (*Template).contentControl
+//@   props C02
+//@   requires PInv(t)
+//@   modifies @Parse
+//@   ensures PInv(t) && result != nil && WFTag(result)
+//@ func (*Template).elseControl
+//@   props C02 C05
+//@   requires PInv(t)
+//@   modifies @Parse
+//@   ensures PInv(t) && result != nil && WFTag(result)
+
+//@ func (*Template).parseTry
+//@   props C02 C13
+//@   requires PInv(t)
+//@   modifies @Parse
+//@   ensures PInv(t) && result != nil && fresh(result) && result.NodeType == NodeTry
+//@   check [try-node-is-exactly-body-and-catch] {C13} fresh(result) && result.NodeType == NodeTry && result.List == lastret("(*Template).itemList", 0) && (result.Catch != nil) == (NTF(lastret("(*Template).itemList", 1)) == nodeCatch)
+//@   callsite (*lexer).lineNumber * requires [line-read-before-the-body-is-parsed] {C12} ncalls("(*Template).itemList") == 0
+
+//@ func (*Template).parseCatch
+//@   props C02 C13
+//@   requires PInv(t)
+//@   modifies @Parse
+//@   ensures PInv(t) && result != nil && fresh(result) && result.NodeType == nodeCatch
+//@   callsite (*lexer).lineNumber * requires [line-read-before-the-body-is-parsed] {C12} ncalls("(*Template).itemList") == 0
+
+//@ func (*Template).parseBlock
+//@   props C02 C08 C12
+//@   requires PInv(t)
+//@   modifies @Parse
+//@   ensures PInv(t) && result != nil && WFTag(result)
+//@   callsite (*lexer).lineNumber * requires [line-read-before-the-body-is-parsed] {C12} ncalls("(*Template).itemList") == 0
+
+//@ func (*Template).parseYield
+//@   props C02 C08 C12
+//@   requires PInv(t)
+//@   modifies @Parse
+//@   ensures PInv(t) && result != nil && WFTag(result)
+//@   callsite (*lexer).lineNumber * requires [line-read-before-the-body-is-parsed] {C12} ncalls("(*Template).itemList") == 0
+
+//@ func (*Template).parseInclude
+//@   props C02
+//@   requires PInv(t)
+//@   modifies @Parse
+//@   ensures PInv(t) && result != nil && WFTag(result)
+
+//@ func (*Template).parseReturn
+//@   props C02
+//@   requires PInv(t)
+//@   modifies @Parse
+//@   ensures PInv(t) && result != nil && WFTag(result)
+
+//@ func (*Template).parseTemplate
+//@   props C02 C03 C08
+//@   requires PInv(t) && len(t.imports) == 0
+//@   modifies @Parse, t.Root, t.extends, t.imports
+//@   loop 0 invariant PInv(t) && t.Root != nil && fresh(t.Root)
+//@   loop 0 invariant [imports-non-nil] forall(i, 0, len(t.imports), t.imports[i] != nil)
+//@   loop 1 invariant PInv(t) && t.Root != nil && fresh(t.Root)
+//@   loop 1 invariant [imports-non-nil] forall(i, 0, len(t.imports), t.imports[i] != nil)
+//@   ensures PInv(t) && forall(i, 0, len(t.imports), t.imports[i] != nil)
